@@ -245,3 +245,19 @@ Theorem C05_history_order : forall W sem, wf W -> sem_nonblank_weak W sem -> sto
               /\ st_cache (fst (run W sem s h1)) m = st_cache (fst (run W sem s h2)) m.
 Proof. exact history_order_weak. Qed.
 Print Assumptions C05_history_order.
+
+(* the value an operation returns does not depend on its position in the
+   history: it is what the operation returns when it is the first one (evaluate:
+   the from-scratch value; Build returns nothing).  For two permutations of one
+   history the (operation, value) pairs are a permutation of each other. *)
+Theorem C05_history_values : forall W sem, wf W -> sem_nonblank_weak W sem -> stored_ok W sem ->
+  forall s h, Inv W sem s -> Forall (be_op W) h ->
+    snd (run W sem s h) = map (fun o => snd (step W sem s o)) h.
+Proof. exact history_values_weak. Qed.
+Print Assumptions C05_history_values.
+
+Theorem C05_history_values_perm : forall W sem, wf W -> sem_nonblank_weak W sem -> stored_ok W sem ->
+  forall s h1 h2, Inv W sem s -> Forall (be_op W) h1 -> Permutation h1 h2 ->
+    Permutation (combine h1 (snd (run W sem s h1))) (combine h2 (snd (run W sem s h2))).
+Proof. exact history_values_perm_weak. Qed.
+Print Assumptions C05_history_values_perm.
